@@ -513,7 +513,16 @@ fn main() {
                             let base = match r.gen_range(0..6) {
                                 0 => WAD, 1 => 0, 2 => 2 * WAD, 3 => -3 * WAD / 2, 4 => r.gen_range(-5 * WAD..5 * WAD), _ => pick128(&mut r),
                             };
-                            let n: i128 = *pick(&mut r, &[0i128, 1, 2, 3, 5, 10, 64, 127, 128, 200, 1000, u32::MAX as i128]);
+                            let mut n: i128 = *pick(&mut r, &[0i128, 1, 2, 3, 5, 10, 64, 127, 128, 200, 1000, u32::MAX as i128]);
+                            // result-targeted: a small base with the last exponent whose power still fits, and its neighbours
+                            let mut base = base;
+                            if r.gen_ratio(1, 3) {
+                                let (num, den) = *pick(&mut r, &[(2i128, 1i128), (-2, 1), (3, 1), (10, 1), (-10, 1), (7, 1), (3, 2), (-3, 2), (11, 10), (2003, 1000), (5, 4)]);
+                                base = WAD / den * num;
+                                let room = ((i128::MAX / WAD) as f64).log2();
+                                let last = (room / ((num.abs() as f64) / (den as f64)).log2()).floor() as i128;
+                                n = (last + *pick(&mut r, &[-1i128, 0, 0, 0, 1, 1])).max(0);
+                            }
                             json!({"op": "wad_pow", "mode": "trunc", "x": Big::from_i128(base).hex(), "y": Big::from_i128(n).hex(), "d": "0x1"})
                         }
                     };
